@@ -46,7 +46,9 @@ RULE = (
     "resample: every (source, target) rate pair x length x channels x first-sample index; non-trivial when the rates "
     "differ and an array is produced. spectrogram: every source rate x window x hop x channels x first-sample index; "
     "non-trivial when window or hop is a fractional number of samples. rewrite: every ordered pair of 4 file parameter sets written one after "
-    "the other to the same path, Recording.from_file + load_recording after each write. distinct = distinct case descriptor."
+    "the other to the same path, Recording.from_file + load_recording after each write. relocate: a recording with a relative path loaded with an "
+    "audio directory (str / Path) while the working directory holds a different file under the same relative name. resample also once per "
+    "direction on a source of 2^20 + 1 samples. distinct = distinct case descriptor."
 )
 ASSUMPTIONS = [
     "PCM-16 WAV files only; libsndfile returns int/32768 as float64, which is exact, so frame values are compared with ==",
@@ -558,6 +560,44 @@ def run_rewrite(case):
     return out
 
 
+def run_relocate(case):
+    """A recording with a RELATIVE path loaded with an audio directory: the file is audio_dir/path, whatever the current working
+    directory holds (here: a different file under the same relative name)."""
+    from pathlib import Path
+    out = Out(case)
+    real, decoy = tuple(case["real"]), tuple(case["decoy"])
+    root = os.path.join(_dir(), "reloc_%d_%d_%d__%d_%d_%d" % (real + decoy))
+    adir, cwd = os.path.join(root, "audio"), os.path.join(root, "cwd")
+    rel = os.path.join("site", "r.wav")
+    for d, (rate, frames, ch) in ((adir, real), (cwd, decoy)):
+        os.makedirs(os.path.join(d, "site"), exist_ok=True)
+        M.write_wav(os.path.join(d, rel), rate, frames, ch)
+    rate, frames, ch = real
+    _, _, fr = M.read_wav(os.path.join(adir, rel))
+    rec = data.Recording(uuid=U("c15:reloc"), path=rel, duration=frames / rate, samplerate=rate, channels=ch)
+    clip = data.Clip(uuid=U("c15:reloc:clip"), recording=rec, start_time=0.0, end_time=frames / rate)
+    ad = adir if case["dir_as"] == "str" else Path(adir)
+    old = os.getcwd()
+    os.chdir(cwd)
+    try:
+        results = [("load_recording", call(audio.load_recording, rec, audio_dir=ad)), ("load_clip", call(audio.load_clip, clip, audio_dir=ad))]
+    finally:
+        os.chdir(old)
+    exp = M.expected_frames(fr, 0, frames, ch)
+    for fn, (st, arr) in results:
+        cls = {"fn": fn, "kind": "relative_path_with_audio_dir"}
+        if st != "ok":
+            out.fail("no_crash_in_domain", describe(arr), "an array of %d frames" % frames, cls)
+            continue
+        got = arr.data.tolist() if arr.dims == ("time", "channel") else None
+        out.expect("frame_values", got == exp, _head(got), _head(exp), cls)
+    shutil.rmtree(root, ignore_errors=True)
+    out.transitions = out.validated = 2
+    out.nontrivial = True
+    out.klass = "relocate/%s" % ("ok" if not out.viol else "wrong_file")
+    return out
+
+
 def blocks(tier):
     c = cfg(tier)
     out = []
@@ -578,6 +618,10 @@ def blocks(tier):
             if te_ok(rate, te):
                 out.append({"space": "clip_boundary", "tier": tier, "rate": rate, "te": te})
     out.append({"space": "rewrite", "tier": tier})
+    out.append({"space": "relocate", "tier": tier})
+    # one source of more than 2^20 samples per direction (beyond any plausible 'long signal' threshold of an implementation)
+    out.append({"space": "resample_long", "src": 8000, "tgt": 16000})
+    out.append({"space": "resample_long", "src": 8000, "tgt": 2000})
     for src in c["resample_rates"]:
         out.append({"space": "resample", "tier": tier, "src": src})
     for rate in spec_rates(c):
@@ -608,6 +652,12 @@ def cases_of(block):
             for ch in CHANNELS:
                 for i, j in clip_pairs(pts):
                     yield clip_case(rate, frames, ch, te, pts[i], pts[j])
+    elif sp == "resample_long":
+        yield {"space": "resample", "src": block["src"], "tgt": block["tgt"], "n": 2 ** 20 + 1, "ch": 1, "first": 0}
+    elif sp == "relocate":
+        for a, b in itertools.permutations(REWRITE_PARAMS[:3], 2):
+            for form in ("str", "Path"):
+                yield {"space": "relocate", "real": list(a), "decoy": list(b), "dir_as": form}
     elif sp == "rewrite":
         for a, b in itertools.permutations(REWRITE_PARAMS, 2):
             yield {"space": "rewrite", "first": list(a), "second": list(b)}
@@ -634,6 +684,8 @@ def run_case(case):
         return run_clip(case)
     if sp == "rewrite":
         return run_rewrite(case)
+    if sp == "relocate":
+        return run_relocate(case)
     if sp == "resample":
         return run_resample(case)
     if sp == "spectrogram":
